@@ -20,7 +20,7 @@
    History: before repair 6f0521d handleLogon called store.Reset() without sendMutex; the statement is false of that
    program (c02_unlocked_reset_regression). *)
 From Coq Require Import ZArith List Bool.
-From QF Require Import Conc.ShapeLang Conc.SendConc Conc.ConcSpec Conc.ConcStep1 Conc.ConcStep4 Conc.ConcMain Gen.SendShape.
+From QF Require Import Conc.ShapeLang Conc.SendConc Conc.ConcSpec Conc.ConcStep1 Conc.ConcStep4 Conc.ConcMain Conc.Writers Gen.SendShape.
 Import ListNotations.
 Open Scope Z_scope.
 
@@ -29,6 +29,13 @@ Theorem c02_shape_ok : check_shape gen_send_shape = true.
 Proof. exact shape_ok. Qed.
 
 (* handleLogon's generated program is well shaped too: OLogon below is the real handleLogon *)
+(* closed world for the store's outbound numbering: in the current sources the functions that call Reset, SaveMessage*,
+   IncrNextSenderMsgSeqNum or SetNextSenderMsgSeqNum on the session's store are exactly dropAndReset, persist and
+   prepMessageForSend (all three inlined into the translated entry points, i.e. under sendMutex) and the registry call
+   SetNextSenderMsgSeqNum (operator API, outside the quantifier).  Re-established from the sources on every run. *)
+Theorem c02_no_other_store_writer : gen_store_writers = expected_store_writers.
+Proof. exact writers_ok. Qed.
+
 Theorem c02_logon_covered : clogon_ok gen_send_shape = true.
 Proof. exact shape_logon_ok. Qed.
 
